@@ -180,6 +180,12 @@ def _extent(chk: Check, sec, site) -> None:
                                                unparse(b_) if b_ is not None else ""))
                     if op == "IsNot" and {repr(ta), repr(tb)} == {repr(tree), repr(("none",))}:
                         continue        # "the tree is there": get() always returns one
+                    zero_ = ("const", 0)
+                    vals_ = ("attr", ("self",), site.values)
+                    if (op == "truthy" and ta in (vals_, len_vals, tree)) or \
+                            (op == "Lt" and ta == zero_ and tb == len_vals) or \
+                            (op == "NotEq" and {repr(ta), repr(tb)} == {repr(zero_), repr(len_vals)}):
+                        continue        # implied by the other two: both lengths are equal and positive
                     atoms.add((repr(ta), op, repr(tb)))
                     if op == "Eq" and {repr(ta), repr(tb)} == {repr(len_tree), repr(len_vals)}:
                         complete = True
